@@ -5,6 +5,7 @@ package wworld
 import (
 	"fmt"
 	"io"
+	"os"
 	"reflect"
 	"sync"
 	"sync/atomic"
@@ -25,7 +26,9 @@ var poolsOnce sync.Once
 func InitPools() {
 	poolsOnce.Do(func() {
 		service.CreateColPools(0)
-		logger.Logger.SetOutput(io.Discard)
+		if os.Getenv("C05_DEBUG") == "" {
+			logger.Logger.SetOutput(io.Discard)
+		}
 	})
 }
 
